@@ -123,10 +123,29 @@ def run(ck):
             if minor >= 4 and fi % 5 == 0:
                 evlrs = [("verif", 7, "d", b"abc")]
                 n = 0
-            las = fio.make_las(ck.rng, minor, fmt, n, vlrs=fio.rand_vlrs(ck.rng, False, 1), evlrs=evlrs)
+            vl = fio.rand_vlrs(ck.rng, False, 1)
+            flagged = minor >= 4 and fi % 6 == 1
+            if fi % 7 == 3:
+                # more than one memory page (4096 bytes) of VLRs before the first point, and of EVLRs after the last one
+                vl = [("verif_big", 9, "more than a page", bytes((3 * i) % 251 for i in range(5000)))]
+                if minor >= 4:
+                    evlrs = [("verif_big", 10, "more than a page", bytes((5 * i) % 241 for i in range(6000)))]
+                n = max(n, 4)
+                ck.count("vlrs_and_evlrs_larger_than_a_page")
+            if flagged:
+                # a file without points whose (absent) points are flagged compressed: LasZip record among the VLRs, EVLRs present;
+                # no decompressor is needed to read it (seekable sources only: the non-seekable case is the open finding of C14)
+                n, evlrs = 0, [("verif", 7, "d", b"abc")]
+                vl = vl + [("laszip encoded", 22204, "", bytes(34))]
+                ck.count("flagged_compressed_without_points")
+            las = fio.make_las(ck.rng, minor, fmt, n, vlrs=vl, evlrs=evlrs)
             buf = io.BytesIO()
             las.write(buf)
             data = buf.getvalue()
+            if flagged:
+                data = bytearray(data)
+                data[104] |= 0x80
+                data = bytes(data)
             with open(path, "wb") as f:
                 f.write(data)
             nev = len(las.evlrs) if (minor >= 4 and las.evlrs) else 0
@@ -134,6 +153,8 @@ def run(ck):
                     "finding_key": "C17:" + ("zero_points_evlrs" if (n == 0 and nev) else "")}
             ref = None
             for kind in ("bytesio", "path", "bytes", "buffered", "readonly_iface", "no_readinto", "logged"):
+                if flagged and kind == "readonly_iface":
+                    continue
                 for read_evlrs in (True, False):
                     for chunked in (False, True):
                         inp = dict(base, source=kind, read_evlrs=read_evlrs, chunked=chunked)
@@ -150,7 +171,7 @@ def run(ck):
                             ck.fail(f"reading through {kind} (read_evlrs={read_evlrs}, chunked={chunked}) differs from BytesIO (first difference at char {k0}: ...{res[max(0,k0-20):k0+30]} vs ...{ref[max(0,k0-20):k0+30]})", inp)
                         if kind == "readonly_iface" and log is not None and any(c in ("seek", "tell") for c in log):
                             ck.fail(f"a non-seekable source was asked to {[c for c in log if c in ('seek', 'tell')][0]}", inp)
-                        if log is not None:
+                        if log is not None and not flagged:
                             sk, ri = {"readonly_iface": (0, 0), "no_readinto": (1, 0), "logged": (1, 1)}[kind]
                             size = las.header.point_format.size
                             off = int.from_bytes(data[96:100], "little")
@@ -159,6 +180,8 @@ def run(ck):
                             meta.append((inp, ",".join(st.collapse(log))))
             # ---- memory map
             inp = dict(base, source="mmap")
+            if flagged:
+                continue
             try:
                 mm = laspy.mmap(path)
                 try:
